@@ -32,6 +32,10 @@ fn flag_waker(flag: Arc<AtomicBool>) -> Waker {
     unsafe { Waker::from_raw(RawWaker::new(Arc::into_raw(flag) as *const (), &VT)) }
 }
 
+fn bound() -> usize {
+    std::env::var("VERIF_LOOM_BOUND").ok().and_then(|v| v.parse().ok()).unwrap_or(3)
+}
+
 static EXECUTIONS: std::sync::atomic::AtomicUsize = std::sync::atomic::AtomicUsize::new(0);
 
 /// A future with the flag its wakers set; `poll` = "the task whose waker was called is polled again".
@@ -74,7 +78,7 @@ impl<F: Future> Task<F> {
 /// C07, schedule half: two releases while a notified waiter is being re-polled on another thread.
 fn sem_absorbed_release() {
     let mut b = loom::model::Builder::new();
-    b.preemption_bound = Some(3);
+    b.preemption_bound = Some(bound());
     b.check(|| {
         EXECUTIONS.fetch_add(1, std::sync::atomic::Ordering::Relaxed);
         let sem = std::sync::Arc::new(Semaphore::new(2));
@@ -119,7 +123,7 @@ fn sem_absorbed_release() {
 /// lock_ops and swallow the notification of the next unlock?
 fn mutex_stale_listener() {
     let mut b = loom::model::Builder::new();
-    b.preemption_bound = Some(3);
+    b.preemption_bound = Some(bound());
     b.check(|| {
         EXECUTIONS.fetch_add(1, std::sync::atomic::Ordering::Relaxed);
         let m = std::sync::Arc::new(Mutex::new(0u32));
@@ -153,7 +157,7 @@ fn mutex_stale_listener() {
 /// than there are permits, and the counter is exact afterwards.
 fn sem_try_race() {
     let mut b = loom::model::Builder::new();
-    b.preemption_bound = Some(3);
+    b.preemption_bound = Some(bound());
     b.check(|| {
         EXECUTIONS.fetch_add(1, std::sync::atomic::Ordering::Relaxed);
         // no permit at all
@@ -190,7 +194,7 @@ fn sem_try_race() {
 /// with the read guard the downgrade produced.
 fn rw_downgrade_race() {
     let mut b = loom::model::Builder::new();
-    b.preemption_bound = Some(3);
+    b.preemption_bound = Some(bound());
     b.check(|| {
         EXECUTIONS.fetch_add(1, std::sync::atomic::Ordering::Relaxed);
         let l = std::sync::Arc::new(RwLock::new(0u32));
@@ -217,7 +221,7 @@ fn rw_downgrade_race() {
 /// others starved) races with f1's poll: at most one of them may obtain the guard.
 fn mutex_fair_race() {
     let mut b = loom::model::Builder::new();
-    b.preemption_bound = Some(3);
+    b.preemption_bound = Some(bound());
     b.check(|| {
         EXECUTIONS.fetch_add(1, std::sync::atomic::Ordering::Relaxed);
         async_lock::verif::oracle_enable(true);
@@ -271,7 +275,7 @@ fn mutex_fair_race() {
 /// waits: with no write guard alive and nothing woken left unpolled no read() may be pending.
 fn rw_reader_chain() {
     let mut b = loom::model::Builder::new();
-    b.preemption_bound = Some(3);
+    b.preemption_bound = Some(bound());
     b.check(|| {
         EXECUTIONS.fetch_add(1, std::sync::atomic::Ordering::Relaxed);
         let l = std::sync::Arc::new(RwLock::new(0u32));
@@ -304,7 +308,7 @@ fn rw_reader_chain() {
 /// value, nobody is left pending.
 fn once_init_race() {
     let mut b = loom::model::Builder::new();
-    b.preemption_bound = Some(3);
+    b.preemption_bound = Some(bound());
     b.check(|| {
         EXECUTIONS.fetch_add(1, std::sync::atomic::Ordering::Relaxed);
         let cell = std::sync::Arc::new(OnceCell::<u32>::new());
@@ -342,7 +346,7 @@ fn once_init_race() {
 /// C09, schedule half: two wait() futures of a Barrier of 2 polled on two threads: both complete, exactly one leads.
 fn barrier_race() {
     let mut b = loom::model::Builder::new();
-    b.preemption_bound = Some(3);
+    b.preemption_bound = Some(bound());
     b.check(|| {
         EXECUTIONS.fetch_add(1, std::sync::atomic::Ordering::Relaxed);
         let bar = std::sync::Arc::new(Barrier::new(2));
